@@ -1076,6 +1076,16 @@ class Interp:
         if op in ("Gt", "Ge"):   # canonicalise
             op = {"Gt": "Lt", "Ge": "Le"}[op]
             a, b = b, a
+        log = getattr(self.ctx, "cmp_log", None)
+        if log is not None and op in ("Lt", "Le"):
+            # comparisons between a tracked argument atom and a constant, as effective INCLUSIVE bounds on the argument
+            for x, c, x_left in ((a, b, True), (b, a, False)):
+                C = st.get_iv(c)
+                if x in self.ctx.arg_atoms.values() and C[0] == C[1] and x != c:
+                    if x_left:      # x < c  /  x <= c   : upper bound
+                        log.append(("max", x, C[0] - 1 if op == "Lt" else C[0]))
+                    else:           # c < x  /  c <= x   : lower bound
+                        log.append(("min", x, C[0] + 1 if op == "Lt" else C[0]))
         k = ("cmp", op, a, b)
         r = G.cons.get(k)
         if r is None:
